@@ -4,6 +4,7 @@
 package main
 
 import (
+	"fmt"
 	"encoding/json"
 	"os"
 	"strings"
@@ -36,6 +37,15 @@ func scenarios(thorough bool) []e3drive.Scenario {
 	add(e3scn.TwoQueues(o), 2)
 	add(e3scn.TwoThreads(false, o), 2)
 	add(e3scn.TwoThreads(true, o), 2)
+	oneq := 1
+	if thorough {
+		oneq = 2
+	}
+	if v := os.Getenv("C12_ONEQ_BOUND"); v != "" { // development aid
+		fmt.Sscan(v, &oneq)
+	}
+	add(e3scn.TwoThreadsOneQueue(o), oneq)
+	add(e3scn.TwoThreadsOneQueueNoop(o), oneq+1)
 	om := o
 	om.Magic = true
 	add(e3scn.Commands1Q(3, om), b3)
